@@ -354,8 +354,9 @@ def gen_one(rng, tier, prop, stream):
     ids, tree = gen_world(rng, tier, prop, over)
     plugin = rng.choice(SIMPLE_KEY_PLUGINS * 3 + OPAQUE_KEY_PLUGINS) if rng.random() < 0.6 else "kill_by_pressure"
     if stream == "meta":
-        # plugins whose ranking key does not go through the sibling lookup of getMemoryProtection (which treats
-        # sibling paths as patterns already in the unchanged code - a C15 matter, not containment)
+        # (plugins whose ranking key does not go through getMemoryProtection: its sibling lookup treated sibling names as
+        # patterns until /repo 48d8f5d - found and fixed under C15; the restriction is kept so that the stream stays a pure
+        # containment stream)
         plugin = rng.choice(["kill_by_pressure", "kill_by_pressure", "kill_by_swap_usage"])
     args = {}
     if plugin == "kill_by_pressure":
